@@ -481,6 +481,15 @@ def _get_command_token_processor(
         )
 
 
+def _is_forward_only(processor: CommandTokenProcessor) -> bool:
+    # Check if an array processor only forwards raw (i.e., not yet escaped) values
+    while isinstance(processor, CWLMapCommandTokenProcessor):
+        processor = processor.processor
+    if isinstance(processor, UnionCommandTokenProcessor):
+        return all(_is_forward_only(p) for p in processor.processors)
+    return isinstance(processor, CWLForwardCommandTokenProcessor)
+
+
 def _get_command_token_processor_from_input(
     cwl_element: Any,
     port_type: Any,
@@ -569,8 +578,10 @@ def _get_command_token_processor_from_input(
     # Simple type with `inputBinding` specified -> CWLCommandToken
     if command_line_binding is not None:
         if processor is not None:
-            # By default, do not escape composite command tokens
-            if command_line_binding.shellQuote is None:
+            # By default, do not escape composite command tokens whose nested tokens are already escaped
+            if command_line_binding.shellQuote is None and not _is_forward_only(
+                processor
+            ):
                 command_line_binding.shellQuote = False
                 is_shell_command = True
             processor = _get_command_token_processor(
